@@ -11,7 +11,8 @@ RULE = ('histories with a state_dict → freshly constructed preconditioner → 
         'and without factors in the state, compute_inverses on/off (loads whose documented precondition fails are '
         'replaced by full loads); state before/after compared exactly on every rank; gradients after the load compared '
         'with the model\'s value terms and with the reference state machine that implements the statement\'s two cases; '
-        'malformed stream: states with a wrong number of layers; non-trivial = ≥1 step before and ≥1 step after a load')
+        'malformed stream: states with a wrong number of layers; non-trivial = ≥1 step before and ≥1 step after a load'
+        '; states kept in memory and rolled back to; checkpoints after a forward-only training pass (one factor only); nested names, float32 inverses/factors')
 TRUSTED = [
     'Lean 4.33 kernel; axioms audited ⊆ {propext, Classical.choice, Quot.sound}',
     'hand-written model KV.Precond (saveState/saveLoad) tied to state_dict/load_state_dict by this correspondence',
